@@ -19,7 +19,7 @@ const c3MaxSteps = 20000 // programs of the grammar that terminate need < 1000 s
 
 // ---- the values of free variables -----------------------------------------------
 
-var c3ValueSpellings = []string{"0", "1", "2", "1.5", `"a"`, "true", "false", "null", "[1]"}
+var c3ValueSpellings = []string{"0", "1", "2", "1.5", `"a"`, "true", "false", "null", "[1]", "2.0"}
 
 // The second free variable q additionally takes a second string and a second
 // array: `+` concatenates strings and arrays, so operand order is observable
